@@ -38,12 +38,12 @@ structure ContAttr where
   fill : List Filler
   indent : Nat
   key : ContKey
-  value : Nat
+  value : Int          -- `strconv.ParseInt(_, 0, 64)`: may be negative
   spaced : Bool        -- `key = value` or `key=value`
   deriving Repr, DecidableEq, Inhabited
 
 def ContAttr.print (a : ContAttr) : Str :=
-  sp a.indent ++ a.key.print ++ (if a.spaced then asc " = " else asc "=") ++ dec a.value
+  sp a.indent ++ a.key.print ++ (if a.spaced then asc " = " else asc "=") ++ intStr a.value
 
 structure ContRec where
   fill : List Filler
@@ -74,18 +74,18 @@ def ContDoc.lines (d : ContDoc) : List Str :=
 def printContention (d : ContDoc) : Str := unlines d.lines
 
 structure ContState where
-  cpuHz : Nat
-  period : Nat
+  cpuHz : Int
+  period : Int
   durationNanos : Int
   deriving Repr, DecidableEq, Inhabited
 
 def ContState.init : ContState := { cpuHz := 0, period := 1, durationNanos := 0 }
 
-def ContState.set (st : ContState) (k : ContKey) (v : Nat) : ContState :=
+def ContState.set (st : ContState) (k : ContKey) (v : Int) : ContState :=
   match k with
   | .cyclesPerSecond => { st with cpuHz := v }
   | .samplingPeriod => { st with period := v }
-  | .msSinceReset => { st with durationNanos := wrapI64 ((v : Int) * 1000 * 1000) }
+  | .msSinceReset => { st with durationNanos := wrapI64 (v * 1000 * 1000) }
   | .discarded => st
 
 /-- the attributes in document order (a later assignment overrides an earlier one). -/
@@ -95,7 +95,7 @@ def ContRec.wf (r : ContRec) : Bool :=
   r.fill.all Filler.wf && r.cycles < two63 && r.count < two63 && r.addrs.all (· < two64)
 
 def ContDoc.wf (d : ContDoc) : Bool :=
-  d.attrs.all (fun a => a.fill.all Filler.wf && a.value < two63) && d.recs.all ContRec.wf &&
+  d.attrs.all (fun a => a.fill.all Filler.wf && decide (-(two63 : Int) ≤ a.value ∧ a.value < (two63 : Int))) && d.recs.all ContRec.wf &&
   d.post.all Filler.wf && (match d.map with | none => true | some m => m.wf)
 
 /-- The float part of `parseContentionSample`: `(cycles, period, hz) ↦
@@ -103,8 +103,9 @@ int64(float64(cycles)·float64(period)/(float64(hz)/1e9))` — a parameter of th
 abbrev CycFn := Nat → Nat → Nat → Int
 
 def contSample (cyc : CycFn) (st : ContState) (cycles count : Nat) (addrs : List Nat) : RawSample :=
-  let v1 : Int := if st.period > 0 ∧ st.cpuHz > 0 then cyc cycles st.period st.cpuHz else (cycles : Int)
-  let v2 : Int := if st.period > 0 then wrapI64 ((count : Int) * (st.period : Int)) else (count : Int)
+  -- nothing is scaled unless the period is positive; the delay only when cycles/second is positive too
+  let v1 : Int := if st.period > 0 ∧ st.cpuHz > 0 then cyc cycles st.period.toNat st.cpuHz.toNat else (cycles : Int)
+  let v2 : Int := if st.period > 0 then wrapI64 ((count : Int) * st.period) else (count : Int)
   { addrs := addrs.map decr64, values := [v2, v1], numLabel := [] }
 
 def contHeader (st : ContState) : Header :=
@@ -140,7 +141,7 @@ def contAttrLoop : List Str → ContState → Outcome (ContState × List Str)
         | none => .err "unrecognized"        -- includes `format`, `resolution` (Java profiles)
         | some .discarded => contAttrLoop r st
         | some key =>
-          match parseI64Base0 (trimSpace v) with
+          match parseI64Base0Z (trimSpace v) with
           | none => .err "unrecognized"
           | some n => contAttrLoop r (st.set key n)
 
